@@ -121,6 +121,8 @@ class GetObservationModel(Contract):
             t.cell.content = I.ctx.fresh("O_new", A2)
             t.cell.label = "obs.tensor"
         obs.label = "obs"
+        # remember what the observation was asked for (environment-level clause C08.observation-of-this-action-result)
+        I.ext_state["go_call"] = {"args": dict(S.a), "result": obs, "self": S.a.get("self")}
         return obs
 
 
@@ -206,8 +208,8 @@ def obs_array_ok(sig, arr, flat):
 class GenerativeStep(Contract):
     may_draw = True      # at most one draw, exactly as C07 states
     qualname = "nasim.envs.environment.NASimEnv.generative_step"
-    tags = {"C05": ("C05", "C20"), "C06": ("C06",), "C12": ("C12",), "C13": ("C13",), "C10": ("C10",),
-            "spec": ("C05", "C06", "C12", "C13"), "raises": ("C05", "C06", "C10", "C13"), "frame": ("C13", "C06")}
+    tags = {"C05": ("C05", "C20"), "C06": ("C06",), "C12": ("C12",), "C13": ("C13",), "C10": ("C10",), "C08": ("C08",),
+            "spec": ("C05", "C06", "C12", "C13"), "raises": ("C05", "C06", "C10", "C13"), "frame": ("C13", "C06", "C08")}
 
     def variants(self):
         return list(V.KINDS)
@@ -277,6 +279,23 @@ class GenerativeStep(Contract):
             else:
                 out.append(("C12.info-is-result", z3.BoolVal(False)))
         out.append(("C06.done", bval(done) == GOAL(T1)))
+        if not getattr(S, "callsite", False):
+            # the observation handed back is the one State.get_observation (verified under C08) builds for THIS action, THIS
+            # action result and the environment's own observability switch, asked of the resulting state
+            go = I.ext_state.get("go_call")
+            env_ = S.a["self"]
+            ok_go = go is not None and obs is go["result"] and go["self"] is nxt
+            if ok_go:
+                ga = go["args"]
+                fo = ga.get("fully_obs")
+                same_flag = z3.BoolVal(fo is env_.fields.get("fully_obs")) if not (isinstance(fo, SymV) and isinstance(env_.fields.get("fully_obs"), SymV)) \
+                    else bval(fo) == bval(env_.fields["fully_obs"])
+                ok_t = z3.And(z3.BoolVal(ga.get("action") is S.a["action"]),
+                              z3.BoolVal(pa is not None and ga.get("action_result") is pa[1] if "action_result" in ga else
+                                         pa is not None and any(v is pa[1] for v in ga.values())), same_flag)
+            else:
+                ok_t = z3.BoolVal(False)
+            out.append(("C08.observation-of-this-action-result", ok_t))
         out.append(("C10.five-tuple", z3.BoolVal(isinstance(S.result, tuple) and len(S.result) == 5)))
         if not getattr(S, "callsite", False):
             out.append(("C10.observation-float32-of-advertised-shape", obs_object_ok(sig, obs)))
